@@ -754,6 +754,203 @@ theorem rinv_drop {pages : List Page} {s : St} (h : RInv pages s) : RInv pages (
   split
   all_goals exact ⟨h1, h2⟩
 
+
+
+/-! ### no error without a final failure (converse of `SInv`) -/
+
+def NoErr (s : St) : Prop :=
+  s.errs = [] ∧ s.ctorErr = none ∧ (∀ e, s.chan ≠ some (.err e)) ∧ (∀ e nx, s.pc ≠ .send (.err e) nx) ∧
+  (∀ e, Attempt.fail e ∉ s.faults)
+
+theorem tail_nofail {fs : List Attempt} (h : ∀ e, Attempt.fail e ∉ fs) : ∀ e, Attempt.fail e ∉ fs.tail :=
+  fun e hm => h e (List.mem_of_mem_tail hm)
+
+theorem headD_nofail {fs : List Attempt} (h : ∀ e, Attempt.fail e ∉ fs) (e : String) : fs.headD .ok ≠ .fail e := by
+  cases fs with
+  | nil => simp
+  | cons a t => intro hh; simp at hh; exact h e (by simp [hh])
+
+theorem noerr_step {s : St} (h : NoErr s) (op : Op) : NoErr (step s op) := by
+  obtain ⟨h1, h2, h3, h4, h5⟩ := h
+  have ht := tail_nofail h5
+  have hh := headD_nofail h5
+  cases op
+  · simp only [step]; unfold stepProd
+    split
+    · split
+      · exact ⟨h1, h2, h3, by simp_all, ht⟩
+      · next e he => exact absurd he (hh e)
+      · exact ⟨h1, h2, h3, by simp, ht⟩
+      · refine ⟨h1, h2, h3, ?_, ht⟩
+        intro e nx; simp only; unfold pcAfter; split <;> simp
+    · split
+      · exact ⟨h1, h2, h3, by simp_all, ht⟩
+      · next e he => exact absurd he (hh e)
+      · exact ⟨h1, h2, h3, by simp, ht⟩
+      · exact ⟨h1, h2, h3, by simp, ht⟩
+    · next it nx hpc =>
+      split
+      · exact ⟨h1, h2, h3, by simp, h5⟩
+      · split
+        · exact ⟨h1, h2, h3, h4, h5⟩
+        · refine ⟨h1, h2, ?_, ?_, h5⟩
+          · intro e; simp only; intro hc
+            have : it = .err e := by simpa using hc
+            exact h4 e nx (by rw [hpc, this])
+          · intro e nx'; simp only; unfold pcAfter; split <;> simp
+    · exact ⟨h1, h2, h3, h4, h5⟩
+  · simp only [step]; unfold stepPoll
+    repeat' split
+    all_goals first
+      | exact ⟨h1, h2, h3, h4, h5⟩
+      | (refine ⟨h1, h2, ?_, h4, h5⟩; intro e; simp)
+      | (next e hch => exact absurd hch (h3 e))
+  · simp only [step]; unfold stepDrop
+    split
+    · exact ⟨h1, h2, by simp, h4, h5⟩
+    · exact ⟨h1, h2, h3, h4, h5⟩
+
+theorem noerr_run {s : St} (h : NoErr s) (ops : List Op) : NoErr (run s ops) := by
+  induction ops generalizing s with
+  | nil => exact h
+  | cons op ops ih => exact ih (noerr_step h op)
+
+/-! ### the failed request is the one for page `served` -/
+
+/-- A final failure has been consumed (and is on its way or has arrived). -/
+def Failing (s : St) : Prop :=
+  pcErr s.pc = true ∨ chanErr s.chan = true ∨ s.errs ≠ [] ∨ s.ctorErr.isSome = true
+
+structure EInv (s : St) : Prop where
+  last : Failing s → ∃ st, s.log.getLast? = some (s.served, st)
+
+theorem einv_init (pages : List Page) (faults : List Attempt) : EInv (init pages faults) :=
+  ⟨by simp [init, Failing, pcErr, chanErr]⟩
+
+/-- Once a failure is under way the producer no longer fetches. -/
+theorem failing_pc {pages : List Page} {s : St} (hc : CInv pages s) (h : Failing s) :
+    (∃ e nx, s.pc = .send (.err e) nx) ∨ s.pc = .done := by
+  rcases h with h | h | h | h
+  · left
+    unfold pcErr at h
+    split at h
+    · exact ⟨_, _, by assumption⟩
+    · simp at h
+  · exact Or.inr (hc.chan_err h)
+  · exact Or.inr (hc.errs_q h).1
+  · exact Or.inr (hc.ctor h).2
+
+theorem einv_prod {pages : List Page} {s : St} (hc : CInv pages s) (h : EInv s) : EInv (stepProd s) := by
+  obtain ⟨h⟩ := h
+  unfold stepProd
+  split
+  next hpc =>
+    have hnf : ¬ Failing s := by
+      intro hf; rcases failing_pc hc hf with ⟨e, nx, hp⟩ | hp <;> simp [hpc] at hp
+    split
+    · refine ⟨fun hf => ?_⟩
+      exfalso; apply hnf
+      simpa [Failing, hpc] using hf
+    · exact ⟨fun _ => ⟨none, by simp⟩⟩
+    · refine ⟨fun hf => ?_⟩
+      exfalso; apply hnf
+      rcases hf with hf | hf | hf | hf
+      · simp [pcErr] at hf
+      · exact Or.inr (Or.inl hf)
+      · exact Or.inr (Or.inr (Or.inl hf))
+      · exact Or.inr (Or.inr (Or.inr hf))
+    · refine ⟨fun hf => ?_⟩
+      exfalso; apply hnf
+      rcases hf with hf | hf | hf | hf
+      · simp at hf
+      · exact Or.inr (Or.inl hf)
+      · exact Or.inr (Or.inr (Or.inl hf))
+      · exact Or.inr (Or.inr (Or.inr hf))
+  next st hpc =>
+    have hnf : ¬ Failing s := by
+      intro hf; rcases failing_pc hc hf with ⟨e, nx, hp⟩ | hp <;> simp [hpc] at hp
+    split
+    · refine ⟨fun hf => ?_⟩
+      exfalso; apply hnf
+      simpa [Failing, hpc] using hf
+    · exact ⟨fun _ => ⟨st, by simp⟩⟩
+    · refine ⟨fun hf => ?_⟩
+      exfalso; apply hnf
+      rcases hf with hf | hf | hf | hf
+      · simp [pcErr] at hf
+      · exact Or.inr (Or.inl hf)
+      · exact Or.inr (Or.inr (Or.inl hf))
+      · exact Or.inr (Or.inr (Or.inr hf))
+    · refine ⟨fun hf => ?_⟩
+      exfalso; apply hnf
+      rcases hf with hf | hf | hf | hf
+      · simp [pcErr] at hf
+      · exact Or.inr (Or.inl hf)
+      · exact Or.inr (Or.inr (Or.inl hf))
+      · exact Or.inr (Or.inr (Or.inr hf))
+  next it nx hpc =>
+    split
+    · refine ⟨fun hf => h ?_⟩
+      rcases hf with hf | hf | hf | hf
+      · simp [pcErr] at hf
+      · exact Or.inr (Or.inl hf)
+      · exact Or.inr (Or.inr (Or.inl hf))
+      · exact Or.inr (Or.inr (Or.inr hf))
+    · split
+      · exact ⟨h⟩
+      · refine ⟨fun hf => h ?_⟩
+        rcases hf with hf | hf | hf | hf
+        · simp at hf
+        · left
+          cases it with
+          | page r => simp [chanErr] at hf
+          | err e => simp [hpc, pcErr]
+        · exact Or.inr (Or.inr (Or.inl hf))
+        · exact Or.inr (Or.inr (Or.inr hf))
+  next => exact ⟨h⟩
+
+theorem einv_poll {s : St} (h : EInv s) : EInv (stepPoll s) := by
+  obtain ⟨h⟩ := h
+  unfold stepPoll
+  split
+  next hrx =>
+    split
+    · exact ⟨h⟩
+    · split
+      next hch =>
+        refine ⟨fun hf => h ?_⟩
+        rcases hf with hf | hf | hf | hf
+        · exact Or.inl hf
+        · simp [chanErr] at hf
+        · exact Or.inr (Or.inr (Or.inl hf))
+        · exact Or.inr (Or.inr (Or.inr hf))
+      next r rest hch =>
+        refine ⟨fun hf => h ?_⟩
+        rcases hf with hf | hf | hf | hf
+        · exact Or.inl hf
+        · simp [chanErr] at hf
+        · exact Or.inr (Or.inr (Or.inl hf))
+        · exact Or.inr (Or.inr (Or.inr hf))
+      next e hch =>
+        exact ⟨fun _ => h (Or.inr (Or.inl (by simp [chanErr, hch])))⟩
+      next hch =>
+        split
+        · exact ⟨h⟩
+        · exact ⟨h⟩
+  next => exact ⟨h⟩
+
+theorem einv_drop {s : St} (h : EInv s) : EInv (stepDrop s) := by
+  obtain ⟨h⟩ := h
+  unfold stepDrop
+  split
+  · refine ⟨fun hf => h ?_⟩
+    rcases hf with hf | hf | hf | hf
+    · exact Or.inl hf
+    · simp [chanErr] at hf
+    · exact Or.inr (Or.inr (Or.inl hf))
+    · exact Or.inr (Or.inr (Or.inr hf))
+  · exact ⟨h⟩
+
 /-! ### the whole invariant, for every schedule -/
 
 structure Inv (pages : List Page) (faults0 : List Attempt) (s : St) : Prop where
@@ -763,17 +960,18 @@ structure Inv (pages : List Page) (faults0 : List Attempt) (s : St) : Prop where
   f : FInv faults0 s
   sv : SInv faults0 s
   rc : RInv pages s
+  ei : EInv s
 
 theorem inv_init (pages : List Page) (faults : List Attempt) : Inv pages faults (init pages faults) :=
-  ⟨pinvA_init _ _, pinvB_init _ _, cinv_init _ _, finv_init _ _, sinv_init _ _, rinv_init _ _⟩
+  ⟨pinvA_init _ _, pinvB_init _ _, cinv_init _ _, finv_init _ _, sinv_init _ _, rinv_init _ _, einv_init _ _⟩
 
 theorem inv_step {pages : List Page} {faults0 : List Attempt} {s : St} (h : Inv pages faults0 s) (op : Op) :
     Inv pages faults0 (step s op) := by
   cases op
   · exact ⟨pinvA_prod h.a, pinvB_prod h.a h.b, cinv_prod h.a h.b h.c, finv_prod h.a h.f,
-      sinv_prod h.c h.sv, rinv_prod h.a h.rc⟩
-  · exact ⟨pinvA_poll h.a, pinvB_poll h.b, cinv_poll h.b h.c, finv_poll h.f, sinv_poll h.c h.sv, rinv_poll h.rc⟩
-  · exact ⟨pinvA_drop h.a, pinvB_drop h.b, cinv_drop h.c, finv_drop h.f, sinv_drop h.sv, rinv_drop h.rc⟩
+      sinv_prod h.c h.sv, rinv_prod h.a h.rc, einv_prod h.c h.ei⟩
+  · exact ⟨pinvA_poll h.a, pinvB_poll h.b, cinv_poll h.b h.c, finv_poll h.f, sinv_poll h.c h.sv, rinv_poll h.rc, einv_poll h.ei⟩
+  · exact ⟨pinvA_drop h.a, pinvB_drop h.b, cinv_drop h.c, finv_drop h.f, sinv_drop h.sv, rinv_drop h.rc, einv_drop h.ei⟩
 
 theorem inv_run {pages : List Page} {faults0 : List Attempt} {s : St} (h : Inv pages faults0 s) (ops : List Op) :
     Inv pages faults0 (run s ops) := by
@@ -1184,5 +1382,121 @@ theorem measure_run_le (ops : List Op) (s : St) : measure (run s ops) ≤ measur
 
 theorem run_append (s : St) (a b : List Op) : run s (a ++ b) = run (run s a) b := by
   simp [run, List.foldl_append]
+
+/-! ### the driver's schedules are runs of the step functions -/
+
+theorem run_cons (s : St) (op : Op) (ops : List Op) : run s (op :: ops) = run (step s op) ops := rfl
+
+theorem prodToQuiescence_is_run : ∀ (n : Nat) (s : St),
+    ∃ ops, prodToQuiescence n s = run s ops ∧ ∀ op ∈ ops, op = Op.prod := by
+  intro n
+  induction n with
+  | zero => intro s; exact ⟨[], rfl, by simp⟩
+  | succ n ih =>
+    intro s
+    simp only [prodToQuiescence]
+    split
+    · exact ⟨[.prod], rfl, by simp⟩
+    · obtain ⟨ops, h, hp⟩ := ih (stepProd s)
+      exact ⟨.prod :: ops, by rw [run_cons]; exact h, by simpa using hp⟩
+
+theorem runDrop_is_run (eagerProd : Bool) (k : Nat) : ∀ (n : Nat) (s : St),
+    ∃ ops, runDrop eagerProd k n s = run s ops := by
+  intro n
+  induction n with
+  | zero => intro s; exact ⟨[], rfl⟩
+  | succ n ih =>
+    intro s
+    simp only [runDrop]
+    split
+    · exact ⟨[], rfl⟩
+    · split
+      · obtain ⟨ops, h⟩ := ih (stepPoll s)
+        exact ⟨.poll :: ops, by rw [run_cons]; exact h⟩
+      · split
+        · obtain ⟨ops, h⟩ := ih (stepProd s)
+          exact ⟨.prod :: ops, by rw [run_cons]; exact h⟩
+        · -- the producer's head start (eager) or nothing (lazy)
+          have h1 : ∃ o1, (if eagerProd = true then prodToQuiescence (measure s + 1) s else s) = run s o1 := by
+            split
+            · obtain ⟨o, h, _⟩ := prodToQuiescence_is_run (measure s + 1) s; exact ⟨o, h⟩
+            · exact ⟨[], rfl⟩
+          obtain ⟨o1, h1⟩ := h1
+          rw [h1]
+          split
+          · obtain ⟨o2, h2, _⟩ := prodToQuiescence_is_run (measure (run s o1) + 1) (stepDrop (run s o1))
+            exact ⟨o1 ++ .drop :: o2, by rw [run_append, run_cons]; exact h2⟩
+          · split
+            · obtain ⟨o3, h3⟩ := ih (stepProd (stepPoll (run s o1)))
+              exact ⟨o1 ++ .poll :: .prod :: o3, by rw [run_append, run_cons, run_cons]; exact h3⟩
+            · obtain ⟨o3, h3⟩ := ih (stepPoll (run s o1))
+              exact ⟨o1 ++ .poll :: o3, by rw [run_append, run_cons]; exact h3⟩
+
+/-! ### after a drop the producer finishes within `measure` of its own steps -/
+
+theorem prod_keeps_dropped (s : St) (h : s.rx = .dropped) (hp : s.pc ≠ .first) :
+    (stepProd s).rx = .dropped ∧ (stepProd s).pc ≠ .first := by
+  unfold stepProd
+  split
+  next hpc => exact absurd hpc hp
+  · split <;> simp_all
+  · split
+    · exact ⟨h, by simp⟩
+    · simp_all
+  · exact ⟨h, hp⟩
+
+theorem dropped_prod_progress (s : St) (h : s.rx = .dropped) :
+    s.pc = .done ∨ measure (stepProd s) < measure s := by
+  rcases prod_decreases s with hd | hs
+  · exact Or.inr hd
+  · left
+    cases hpc : s.pc with
+    | done => rfl
+    | first =>
+      exfalso
+      have : (stepProd s).log.length = s.log.length := by rw [hs]
+      unfold stepProd at this
+      simp only [hpc] at this
+      split at this <;> simp at this
+    | fetch st =>
+      exfalso
+      have : (stepProd s).log.length = s.log.length := by rw [hs]
+      unfold stepProd at this
+      simp only [hpc] at this
+      split at this <;> simp at this
+    | send it nx =>
+      exfalso
+      have : (stepProd s).pc = s.pc := by rw [hs]
+      unfold stepProd at this
+      simp [hpc, h] at this
+
+theorem done_stays (s : St) (h : s.pc = .done) (n : Nat) : (run s (List.replicate n Op.prod)).pc = .done := by
+  induction n generalizing s with
+  | zero => exact h
+  | succ n ih =>
+    have : stepProd s = s := by unfold stepProd; simp [h]
+    simp only [List.replicate_succ, run_cons, step, this]
+    exact ih s h
+
+theorem drop_prod_finishes : ∀ (n : Nat) (s : St), s.rx = .dropped → s.pc ≠ .first → measure s ≤ n →
+    (run s (List.replicate n Op.prod)).pc = .done := by
+  intro n
+  induction n with
+  | zero =>
+    intro s _ hp hm
+    have : pcRank s.pc = 0 := by unfold measure at hm; omega
+    cases hpc : s.pc with
+    | done => exact hpc
+    | first => exact absurd hpc hp
+    | fetch st => simp [hpc, pcRank] at this
+    | send it nx => cases nx <;> simp [hpc, pcRank] at this
+  | succ n ih =>
+    intro s h hp hm
+    rcases dropped_prod_progress s h with hd | hd
+    · exact done_stays s hd (n + 1)
+    · have hk := prod_keeps_dropped s h hp
+      simp only [List.replicate_succ, run_cons, step]
+      exact ih (stepProd s) hk.1 hk.2 (by omega)
+
 
 end ScyllaVerif.Pager
